@@ -732,6 +732,12 @@ pub fn ed25519_add(p: &[u8], q: &[u8]) -> Option<Vec<u8>> {
     libsodium_rs::crypto_core::ed25519::add(&p, &q).ok().map(|r| r.to_vec())
 }
 
+/// the X25519 secret scalar that belongs to an Ed25519 secret key (seed || public key)
+pub fn x25519_secret_of_ed25519(secret64: &[u8]) -> Option<[u8; 32]> {
+    let sk = libsodium_rs::crypto_sign::SecretKey::from_bytes(secret64).ok()?;
+    libsodium_rs::crypto_sign::ed25519_sk_to_curve25519(&sk).ok()
+}
+
 pub fn ed25519_public_of_seed(seed: &[u8; 32]) -> Option<Vec<u8>> {
     let kp = libsodium_rs::crypto_sign::keypair_from_seed(seed).ok()?;
     Some(kp.public_key.as_bytes().to_vec())
